@@ -81,6 +81,48 @@ pub fn replay(path: &str) -> i32 {
             println!("encoded {enc:02x?}\ndecoded {dec:?}\nequal: {}", dec.as_ref().map(|d| *d == inputs).unwrap_or(false));
             0
         }
+        "hashorder" => {
+            let scn: Scenario = serde_json::from_value(v["scenario"].clone()).expect("scenario");
+            let mut reference = scn.clone();
+            reference.hash_seed = v["reference_hash_seed"].as_u64().unwrap_or(1);
+            reference.rng_seed = v["reference_rng_seed"].as_u64().unwrap_or(7);
+            let a = run_scn(&reference, &Vec::new(), &RunOpt::default());
+            let b = run_scn(&scn, &Vec::new(), &RunOpt::default());
+            println!("scenario: {}", scn.name);
+            let mut differs = false;
+            for (i, (x, y)) in a.nodes.iter().zip(b.nodes.iter()).enumerate() {
+                println!("--- node {i}: iteration orders reference {:?} / this run {:?}", x.iter_orders, y.iter_orders);
+                for (cx, cy) in x.calls.iter().zip(y.calls.iter()) {
+                    if (cx.res, cx.n_adv, cx.n_save, cx.n_load, cx.cur, cx.conf) != (cy.res, cy.n_adv, cy.n_save, cy.n_load, cy.cur, cy.conf) {
+                        println!("  round {}: reference res={} adv={} save={} load={} cur={} conf={} / this run res={} adv={} save={} load={} cur={} conf={}", cx.round, cx.res, cx.n_adv, cx.n_save, cx.n_load, cx.cur, cx.conf, cy.res, cy.n_adv, cy.n_save, cy.n_load, cy.cur, cy.conf);
+                        differs = true;
+                        break;
+                    }
+                }
+                for (f, (fx, fy)) in x.sims.iter().zip(y.sims.iter()).enumerate() {
+                    if fx.vals != fy.vals || fx.stats != fy.stats || fx.hash_after != fy.hash_after {
+                        println!("  frame {f}: reference {:?}/{:?} this run {:?}/{:?}", fx.vals, fx.stats, fy.vals, fy.stats);
+                        differs = true;
+                        break;
+                    }
+                }
+                let ex: Vec<String> = x.events.iter().map(|e| format!("{}:{:?}", e.0, e.2)).collect();
+                let ey: Vec<String> = y.events.iter().map(|e| format!("{}:{:?}", e.0, e.2)).collect();
+                if ex != ey {
+                    println!("  events: reference {ex:?}\n          this run {ey:?}");
+                    differs = true;
+                }
+            }
+            println!("reproduces: {differs}");
+            i32::from(!differs)
+        }
+        "builder" => {
+            let seq: Vec<crate::props::builder::Call> = serde_json::from_value(v["sequence"].clone()).unwrap_or_default();
+            let start = v["start"].as_u64().unwrap_or(0) as u8;
+            let r = crate::props::builder::run_sequence(&seq, start);
+            println!("{seq:?} then start #{start}: {r:?}");
+            i32::from(r.is_ok())
+        }
         other => {
             eprintln!("unknown replay engine {other:?}: {}", v);
             2
